@@ -32,7 +32,7 @@ RULE = ('request: generated streams of well-formed commands (I<hex>=, <hex>!, O<
         'mode, max gap) -- all are non-trivial (each moves a strobe or emits characters); distinct by content')
 SHARDS = {'quick': 1, 'thorough': 16}
 TIMEOUT = {'quick': 600, 'thorough': 3000}
-MIN_NONTRIVIAL = {'quick': 20000, 'thorough': 400000}
+MIN_NONTRIVIAL = {'quick': 20000, 'thorough': 1000000}
 
 STROBES = ('set_index_in', 'set_v_in', 'set_index_out', 'start_resp', 'clk_pulse')
 VALUE_OF = {'set_index_in': 'index_in', 'set_v_in': 'v_in', 'set_index_out': 'index_out'}
@@ -578,7 +578,7 @@ def run_check(run, tier, seed, shard):
     run.assume('"whatever the consumer\'s pacing" is judged as bounded progress: ready schedules are oblivious with not-ready runs <= G '
                'and the "!" must be taken within (count+2)*2*(G+1)+4 cycles of start_resp (the block looks at ready twice per '
                'character, so the design-time bound (count+2)*(G+3) is too tight for G >= 2 and is not used)')
-    nreq, nresp = (8000, 10000) if tier == 'quick' else (120000, 160000)
+    nreq, nresp = (8000, 10000) if tier == 'quick' else (300000, 400000)
     deadline = time.time() + (420 if tier == 'quick' else 2400)
     agg = dict(digits={}, pulses={}, pulse_len={}, kinds={}, chars=0, valid_low_cycles=0, stalls=[], counts={}, resp_modes={},
                resp_max_frac_of_bound=0.0, ready_low_cycles=0)
